@@ -247,6 +247,31 @@ BoundingSphere::BoundingSphere(const std::vector<Vector3>& vertices) {
 	center.z = pCenter[2];
 
 	radius = std::sqrt(mb.squared_radius());
+
+	// The pivot iteration of the miniball can stop early with float coordinates. Make sure
+	// that the sphere contains every vertex and is not larger than the sphere around the
+	// bounding box (results that already are within float tolerance stay untouched).
+	Vector3 boxMin = vertices.front();
+	Vector3 boxMax = vertices.front();
+	float maxDist = 0.0f;
+	for (auto& vertice : vertices) {
+		maxDist = std::max(maxDist, center.DistanceTo(vertice));
+		boxMin = Vector3(std::min(boxMin.x, vertice.x), std::min(boxMin.y, vertice.y), std::min(boxMin.z, vertice.z));
+		boxMax = Vector3(std::max(boxMax.x, vertice.x), std::max(boxMax.y, vertice.y), std::max(boxMax.z, vertice.z));
+	}
+
+	if (maxDist > radius * 1.00001f)
+		radius = maxDist;
+
+	Vector3 boxCenter = (boxMin + boxMax) * 0.5f;
+	float boxRadius = 0.0f;
+	for (auto& vertice : vertices)
+		boxRadius = std::max(boxRadius, boxCenter.DistanceTo(vertice));
+
+	if (radius > boxRadius * 1.00001f) {
+		center = boxCenter;
+		radius = boxRadius;
+	}
 }
 
 float Matrix3::Determinant() const {
